@@ -11,6 +11,7 @@ from sfa.model import call_name
 from sfa.model import kwarg
 from sfa.model import norm
 from sfa.model import walk_local
+from sfa import roles
 from sfa.report import Ctx
 
 RAW_CTOR_ALLOWED = ('from_blocks', 'from_zero_size_shape', '__copy__')
@@ -39,9 +40,9 @@ def raw_constructor_sites(ctx: Ctx) -> None:
                 ctx.bad(R, f, c, f'{top.qualname} calls the raw TypeBlocks constructor with a hand-built directory: nothing ties _index / _dtypes / _shape to the blocks '
                         '(use from_blocks)', key=key)
                 continue
-            b, d, i, s = (norm(kwarg(c, k)) for k in ('blocks', 'dtypes', 'index', 'shape'))
+            b, d, i, s = (norm(_identity_comp(kwarg(c, k))) for k in ('blocks', 'dtypes', 'index', 'shape'))
             if top.name == '__copy__':
-                good = b in ('[b for b in self._blocks]', 'self._blocks.copy()', 'list(self._blocks)') and d in ('self._dtypes.copy()', 'list(self._dtypes)') \
+                good = b in ('list(self._blocks)', 'self._blocks.copy()') and d in ('self._dtypes.copy()', 'list(self._dtypes)') \
                     and i in ('self._index.copy()', 'list(self._index)') and s == 'self._shape'
                 (ctx.ok if good else ctx.bad)(R, f, c, 'shallow copies of self\'s own blocks, dtypes, index and shape' if good else
                                               f'__copy__ passes blocks={b}, dtypes={d}, index={i}, shape={s}: the directory does not describe the blocks', key=key)
@@ -49,10 +50,62 @@ def raw_constructor_sites(ctx: Ctx) -> None:
                 good = b in ('list()', '[]') and d in ('list()', '[]') and i in ('list()', '[]') and s == 'shape'
                 (ctx.ok if good else ctx.bad)(R, f, c, 'empty directory for a zero-width shape' if good else f'blocks={b}, dtypes={d}, index={i}, shape={s}', key=key)
             else:
-                good = b == 'blocks' and d == 'dtypes' and i == 'index' and s in ('(row_count, column_count)',)
+                # the three lists this call built in step (each is appended to in this function), and the counts it accumulated
+                kb, kd, ki, ks = (kwarg(c, k) for k in ('blocks', 'dtypes', 'index', 'shape'))
+                appended = {x.func.value.id for x in ast.walk(top.node) if isinstance(x, ast.Call) and isinstance(x.func, ast.Attribute)
+                            and x.func.attr == 'append' and isinstance(x.func.value, ast.Name)}
+                lists = [x.id for x in (kb, kd, ki) if isinstance(x, ast.Name)]
+                good = len(lists) == 3 and len(set(lists)) == 3 and set(lists) <= appended \
+                    and isinstance(ks, ast.Tuple) and len(ks.elts) == 2 and all(isinstance(e, ast.Name) for e in ks.elts) \
+                    and _directory_roles(top.node).get('blocks') == lists[0] and _directory_roles(top.node).get('dtypes') == lists[1] \
+                    and _directory_roles(top.node).get('index') == lists[2]
                 (ctx.ok if good else ctx.bad)(R, f, c, 'from_blocks passes the lists it built in step, by their own names' if good else
                                               f'from_blocks passes blocks={b}, dtypes={d}, index={i}, shape={s}', key=key)
     ctx.require(n >= 4, 'raw TypeBlocks constructor sites')
+
+
+def _identity_comp(e: tp.Optional[ast.expr]) -> tp.Optional[ast.expr]:
+    """[x for x in E] -> list(E): the identity comprehension is a shallow list copy whatever its variable is called."""
+    if isinstance(e, ast.ListComp) and len(e.generators) == 1 and not e.generators[0].ifs and isinstance(e.elt, ast.Name) \
+            and isinstance(e.generators[0].target, ast.Name) and e.elt.id == e.generators[0].target.id:
+        return ast.Call(func=ast.Name(id='list', ctx=ast.Load()), args=[e.generators[0].iter], keywords=[])
+    return e
+
+
+def _directory_roles(fn: ast.AST) -> tp.Dict[str, tp.Optional[str]]:
+    """Locals of from_blocks by role: the list receiving arrays (appended an immutable_filter(...) result), the list receiving
+    (block number, column) pairs, the list receiving dtypes; the block counter is the first element of the appended pair; the
+    per-block row / column counts come from shape_filter(<loop block>); the loop variables."""
+    out: tp.Dict[str, tp.Optional[str]] = {}
+    for c in ast.walk(fn):
+        if isinstance(c, ast.Call) and isinstance(c.func, ast.Attribute) and c.func.attr == 'append' and isinstance(c.func.value, ast.Name) and len(c.args) == 1:
+            a = c.args[0]
+            if isinstance(a, ast.Tuple) and len(a.elts) == 2 and all(isinstance(e, ast.Name) for e in a.elts):
+                out.setdefault('index', c.func.value.id)
+                out.setdefault('block_count', a.elts[0].id)
+            elif isinstance(a, ast.Attribute) and a.attr == 'dtype':
+                out.setdefault('dtypes', c.func.value.id)
+            elif isinstance(a, ast.Call) and call_name(a) == 'immutable_filter':
+                out.setdefault('blocks', c.func.value.id)
+    for lp in ast.walk(fn):
+        if isinstance(lp, ast.For) and isinstance(lp.target, ast.Name) and isinstance(lp.iter, ast.Name) and lp.iter.id in roles.params_of(fn) \
+                and any(isinstance(x, ast.Call) and call_name(x) == 'shape_filter' for x in ast.walk(lp)):
+            out['block'] = lp.target.id
+            for a in ast.walk(lp):
+                if isinstance(a, ast.Assign) and isinstance(a.value, ast.Call) and call_name(a.value) == 'shape_filter' and isinstance(a.targets[0], ast.Tuple) \
+                        and len(a.targets[0].elts) == 2 and all(isinstance(e, ast.Name) for e in a.targets[0].elts):
+                    out['r'], out['c'] = a.targets[0].elts[0].id, a.targets[0].elts[1].id
+            for inner in ast.walk(lp):
+                if isinstance(inner, ast.For) and inner is not lp and isinstance(inner.target, ast.Name) and call_name(inner.iter) == 'range':
+                    out['i'] = inner.target.id
+            for a in ast.walk(lp):
+                if isinstance(a, ast.AugAssign) and isinstance(a.target, ast.Name) and isinstance(a.value, ast.Name) and a.value.id == out.get('c'):
+                    out['column_count'] = a.target.id
+            for a in ast.walk(lp):
+                if isinstance(a, ast.Compare) and len(a.ops) == 1 and isinstance(a.ops[0], ast.NotEq) and isinstance(a.left, ast.Name) and a.left.id == out.get('r') \
+                        and isinstance(a.comparators[0], ast.Name):
+                    out['row_count'] = a.comparators[0].id
+    return out
 
 
 def from_blocks_lockstep(ctx: Ctx) -> None:
@@ -61,7 +114,8 @@ def from_blocks_lockstep(ctx: Ctx) -> None:
              'the column count and the block counter together, index entries being (block_count, i) taken before the counter advances; '
              'rows are checked against the first block; zero-width blocks are skipped before anything is recorded', floor=6)
     f = ctx.prog.method('TypeBlocks', 'from_blocks', inherited=False)
-    loops = [n for n in walk_local(f.node) if isinstance(n, ast.For) and norm(n.iter) == 'raw_blocks']
+    fnode = roles.canonical(f.node, _directory_roles(f.node))
+    loops = [n for n in walk_local(fnode) if isinstance(n, ast.For) and norm(n.iter) == 'raw_blocks']
     ctx.require(len(loops) == 1, 'from_blocks iterates raw_blocks')
     lp = loops[0]
     body = lp.body
@@ -94,7 +148,7 @@ def from_blocks_lockstep(ctx: Ctx) -> None:
                       for x in ast.walk(s) if isinstance(x, (ast.AugAssign, ast.Call)) and norm(x).startswith(('blocks.append', 'column_count +=', 'block_count +=', 'index.append', 'dtypes.append'))]
     (ctx.ok if not nested_updates else ctx.bad)(R, f, lp, 'no directory update is conditional' if not nested_updates else f'conditional updates: {nested_updates}', key='unconditional')
     # single-array branch
-    single = [n for n in walk_local(f.node) if isinstance(n, ast.For) and norm(n.iter) == 'range(column_count)']
+    single = [n for n in walk_local(fnode) if isinstance(n, ast.For) and norm(n.iter) == 'range(column_count)']
     good = bool(single) and {'index.append((block_count, i))', 'dtypes.append(raw_blocks.dtype)'} <= {norm(x) for x in single[0].body}
     (ctx.ok if good else ctx.bad)(R, f, single[0] if single else f.node, 'single-array form writes one directory entry per column' if good else
                                   'the single-array branch of from_blocks no longer writes index and dtypes per column', key='single-array')
@@ -105,8 +159,35 @@ def final_shape_checks(ctx: Ctx) -> None:
     ctx.rule(R, 'every normal exit of Frame.__init__ has passed both `self._blocks.shape[i] != count -> raise ErrorInitFrame` tests, and '
              'every normal exit of Series.__init__ the `value_count != index_count` and dimensionality tests (must-pass-through on all paths)', floor=4)
     prog = ctx.prog
-    for cname, needed in (('Frame', ('self._blocks.shape[0] != row_count', 'self._blocks.shape[1] != col_count')),
-                          ('Series', ('value_count != index_count', 'self.values.ndim != self._NDIM'))):
+
+    def ne_sides(e: ast.expr) -> tp.Optional[tp.Tuple[ast.expr, ast.expr]]:
+        if isinstance(e, ast.Compare) and len(e.ops) == 1 and isinstance(e.ops[0], ast.NotEq):
+            return e.left, e.comparators[0]
+        return None
+
+    def frame_pred(axis: int) -> tp.Callable[[FuncInfo, ast.expr], bool]:
+        def pred(f: FuncInfo, e: ast.expr) -> bool:
+            sd = ne_sides(e)
+            return sd is not None and sorted((norm(sd[0]) == f'self._blocks.shape[{axis}]', norm(sd[1]) == f'self._blocks.shape[{axis}]')) == [False, True] \
+                and any(isinstance(x, ast.Name) for x in sd)
+        return pred
+
+    def series_count_pred(f: FuncInfo, e: ast.expr) -> bool:
+        # <count of the values> != <count of the index>, each a local assigned from len(self.values) / the index length
+        sd = ne_sides(e)
+        if sd is None or not all(isinstance(x, ast.Name) for x in sd):
+            return False
+        vnames = set(roles.assigned_from_all(f.node, lambda v: norm(v) in ('len(self.values)', 'self.values.__len__()')))
+        inames = set(roles.assigned_from_all(f.node, lambda v: norm(v) in ('len(self._index)', 'self._index.__len__()')))
+        a, b = sd[0].id, sd[1].id
+        return (a in vnames and b in inames) or (b in vnames and a in inames)
+
+    def series_ndim_pred(f: FuncInfo, e: ast.expr) -> bool:
+        sd = ne_sides(e)
+        return sd is not None and {norm(sd[0]), norm(sd[1])} == {'self.values.ndim', 'self._NDIM'}
+
+    for cname, needed in (('Frame', (('rows == len(index)', frame_pred(0)), ('columns == len(columns)', frame_pred(1)))),
+                          ('Series', (('len(values) == len(index)', series_count_pred), ('values are 1-D', series_ndim_pred)))):
         f = prog.method(cname, '__init__', inherited=False)
 
         class C(flow.Client):
@@ -114,19 +195,20 @@ def final_shape_checks(ctx: Ctx) -> None:
                 return a & b
 
             def refine(self, atom, st, truth):
-                t = norm(atom)
-                if t in needed and not truth:
-                    return st | {t}
+                if not truth:
+                    for label, pred in needed:
+                        if pred(f, atom):
+                            st = st | {label}
                 return st
         c = C()
         ex = flow.Engine(c).run(f.body, frozenset())
         exits = [s for _n, s in ex.returns] + ([ex.fall] if ex.fall is not None else [])
         ctx.require(len(exits) >= 1, f'{cname}.__init__ has a normal exit')
-        for t in needed:
-            good = all(t in s for s in exits)
-            raises = any(isinstance(n, ast.If) and norm(n.test) == t and any(isinstance(x, ast.Raise) and 'ErrorInit' in norm(x.exc) for x in n.body) for n in walk_local(f.node))
-            (ctx.ok if good and raises else ctx.bad)(R, f, f.node, f'`{t}` is tested (and raises) on every path to a normal exit' if good and raises else
-                                                     f'a normal exit of {cname}.__init__ is reachable without the `{t}` check: a container whose data and labels disagree in size can be constructed', key=f'{cname}:{t}')
+        for label, pred in needed:
+            good = all(label in s for s in exits)
+            raises = any(isinstance(n, ast.If) and pred(f, n.test) and any(isinstance(x, ast.Raise) and 'ErrorInit' in norm(x.exc) for x in n.body) for n in walk_local(f.node))
+            (ctx.ok if good and raises else ctx.bad)(R, f, f.node, f'`{label}` is tested (and its failure raises) on every path to a normal exit' if good and raises else
+                                                     f'a normal exit of {cname}.__init__ is reachable without the `{label}` check: a container whose data and labels disagree in size can be constructed', key=f'{cname}:{label}')
 
 
 def offset_discipline(ctx: Ctx) -> None:
